@@ -79,4 +79,4 @@ def c06(tier, only=None):
                     'PlainPrimitiveBlockIterator::{new, skip, next_batch, remaining_items}'],
                    ['nullable / RLE / dictionary / char / blob block iterators, column builders and iterators (moka, async) are outside: they exhaust memory under CBMC or are not executable',
                     'Decimal codec (u128 serialization) is outside'], 3000 if thorough else 1500,
-                   extra=lambda rep: (__import__('mirsmt.c06m', fromlist=['run']).run(rep, thorough), __import__('mirsmt.c06m', fromlist=['run_rle']).run_rle(rep, thorough), __import__('mirsmt.c06m', fromlist=['run_blob']).run_blob(rep, thorough), __import__('mirsmt.c06m', fromlist=['run_char']).run_char(rep, thorough), __import__('mirsmt.c06c', fromlist=['run_skip']).run_skip(rep, thorough), __import__('mirsmt.c06m', fromlist=['run_rle_builder']).run_rle_builder(rep, thorough), __import__('mirsmt.c06m', fromlist=['run_dict_builder']).run_dict_builder(rep, thorough), __import__('mirsmt.c06m', fromlist=['run_dict_iterator']).run_dict_iterator(rep, thorough)))
+                   extra=lambda rep: (__import__('mirsmt.c06m', fromlist=['run']).run(rep, thorough), __import__('mirsmt.c06m', fromlist=['run_rle']).run_rle(rep, thorough), __import__('mirsmt.c06m', fromlist=['run_blob']).run_blob(rep, thorough), __import__('mirsmt.c06m', fromlist=['run_char']).run_char(rep, thorough), __import__('mirsmt.c06c', fromlist=['run_skip']).run_skip(rep, thorough), __import__('mirsmt.c06m', fromlist=['run_rle_builder']).run_rle_builder(rep, thorough), __import__('mirsmt.c06m', fromlist=['run_dict_builder']).run_dict_builder(rep, thorough), __import__('mirsmt.c06m', fromlist=['run_dict_iterator']).run_dict_iterator(rep, thorough), __import__('mirsmt.c06p', fromlist=['run']).run(rep, thorough)))
